@@ -392,6 +392,9 @@ def run(repo, rep, tier):
     # a record that lacks a field must make the string quantity raise (and so be skipped): the evaluation namespace is built per call
     rep.borrow(repo, "C17", {"R17.4": ("R12.5", "a string quantity is evaluated in a namespace built for this record alone: a record missing a field raises instead of being aggregated with the previous record's value", 2)},
                keep=lambda f: "namespace" in (f.stmt or ""))
+    # a failed evaluation must not be remembered as if it had succeeded: the memo of a cached quantity is committed after the call
+    rep.borrow(repo, "C17", {"R17.2": ("R12.6", "a cached quantity that raises leaves no memo behind: the same bad record raises again instead of being aggregated with the previous result", 5)},
+               keep=lambda f: "stored before" in f.message or "before the underlying" in f.message)
     validators_raise(repo, rep, r4, prims)
     for c in prims:
         f = repo.own_method(c, "fill")
